@@ -450,6 +450,11 @@ func (o OneOfSchema[KeyType]) findUnderlyingType(data any) (KeyType, Object, err
 // declaration.
 func (o OneOfSchema[KeyType]) validateSubtypeDiscriminatorInlineFields() error {
 	for key, typeValue := range o.TypesValue {
+		if ref, isRef := typeValue.(Ref); isRef && !ref.ObjectReady() {
+			// A reference into a namespace that has not been applied yet: there is nothing to look at. This
+			// check runs again after every namespace application, so the member is checked once it is linked.
+			continue
+		}
 		typeValueDiscriminatorValue, hasDiscriminator := typeValue.Properties()[o.DiscriminatorFieldNameValue]
 		switch {
 		case !o.DiscriminatorInlined && hasDiscriminator:
